@@ -3,6 +3,7 @@
 package stublog
 
 import (
+	"time"
 	"bytes"
 	"compress/gzip"
 	"context"
@@ -339,6 +340,28 @@ func FrontEnd(h http.Handler, mode string) http.Handler {
 			r2.URL.Path = strings.TrimPrefix(r.URL.Path, MountPoint)
 			r2.URL.RawPath = ""
 			h.ServeHTTP(rw, r2)
+		})
+	case "slowonce":
+		// the FIRST request for every data URL is answered only after 600 ms (longer than the timeout the harness gives the HTTP client of the
+		// feeders behind this front end), every later one at once: a slow moment of the log, with plenty of the cycle's time left
+		var mu sync.Mutex
+		seen := map[string]bool{}
+		return http.HandlerFunc(func(rw http.ResponseWriter, r *http.Request) {
+			u := r.URL.Path + "?" + r.URL.RawQuery
+			p := strings.TrimRight(r.URL.Path, "/")
+			isCP := strings.HasSuffix(p, "/checkpoint") || strings.HasSuffix(p, "/latest") || strings.HasSuffix(p, "/checkpoint.txt") || strings.HasSuffix(p, "/api/v1/log")
+			mu.Lock()
+			first := !seen[u]
+			seen[u] = true
+			mu.Unlock()
+			if first && !isCP {
+				select {
+				case <-time.After(600 * time.Millisecond):
+				case <-r.Context().Done():
+					return
+				}
+			}
+			h.ServeHTTP(rw, r)
 		})
 	case "flaky":
 		// transient trouble in front of the log (a CDN edge that does not have the object yet, a gateway restarting): the FIRST request for every
